@@ -12,13 +12,20 @@ rate fs, call form of the first call and of the repeated call (keywords, positio
 recovery_duration_ms=0.16, return_peak_channel True / False), memory layout of the batch handed to the first call
 and of the arrays of the law calls (C, Fortran, swapped (n, C, T) storage, strided slice of a bigger array), the same
 argument object passed a second time after the law calls, the batch in another order.
+
+Round 10: a rare real-data-scale class (_big_case / _run_big): 2^16+1 .. 1.05e6 waveforms built from the few parameter
+rows of the case, expected frame known by construction for every row, different waveforms on the rows around every
+multiple of 1000 / 1024 (a blocked implementation that loses or mis-phases the row on a block seam is seen there).
 """
+import json
 import math
+import zlib
 
 import numpy as np
 from hypothesis import strategies as st
 
 from vp import sut
+from vp.gens import weighted
 
 ID = "C14"
 LEVEL = "exploration"
@@ -50,8 +57,16 @@ RULE = ("Case = batch of 1-30 synthetic multi-channel waveforms (T 10-200 sample
         "return_peak_channel=True the second output must be the input traces of the reported peak channel; the duration "
         "and slope columns must follow from the reported indices / values and fs (docstrings: seconds, difference over "
         "duration; relative tolerance 16 eps of the value dtype). "
+        "Real-data scale (about 2 % of the cases, labels scale_*): 65537 .. 1.05e6 waveforms (classes just above 2^16, "
+        "around 10^5 / 2^17, around 2^18, above 10^6 / 2^20) of 10-64 samples x 1-3 channels; row i is one of 3-12 parameter "
+        "rows of the case (one per clause: trough on the last sample, peak on the last sample, swapped and unswapped weak "
+        "positive spikes, peak on sample 1, ...) times 2**e_i, assigned at random and, around every multiple of 1000 and of "
+        "1024, as three different consecutive rows; the expected frame is the reference of the parameter rows indexed by "
+        "that assignment (exact, every row compared), plus single-waveform calls on rows around 2^16, 10^5, 2^17, 2^18, 10^6, "
+        "2^20, the batch without its first 1-4097 rows (N < 100000) and the same argument a second time (N < 200000). "
         "Non-trivial = some waveform has its trough within the last 6 samples, or is a swapped row, or has a NaN "
-        "channel. Distinct = distinct case hash.")
+        "channel; for a real-data-scale case: the rows before, on and after every crossed power-of-two / power-of-ten seam "
+        "from 2^16 on have different expected features. Distinct = distinct case hash.")
 EXHAUSTIVE_NOTE = ("grid T (quick 10,16; thorough 10..40) x peak position 1..T-1 x trough position peak..T-1 x polarity x "
                    "{strong r=3, weak r=1.2, weak r=1.8} of narrow (sigma 0.75 sample) single-channel spikes with 1 % noise "
                    "is enumerated completely, k=5; widths, channel counts, noise and batch composition are sampled; call form "
@@ -74,6 +89,10 @@ ASSUMPTIONS = [
     "documented default offset of recovery_point is 5: nearest sample); otherwise recovery_duration_ms = 1000 k / fs",
     "duration and slope columns are compared with the values that follow from the reported indices and values of the same "
     "frame, not with the reference (a wrong index is reported once, under its own kind)",
+    "real-data scale: the number of waveforms and its class are a fixed function (CRC32) of the drawn parameter rows and "
+    "seed, because Hypothesis re-uses leading draws for many near-copies of one example; lengths and channel counts are "
+    "kept small there (N x T x C <= 6e6, 1.05e7 for T = 10) so that one call stays near 1 GB; float64 is not used above "
+    "10^6 waveforms; the strided layout and the scaling / channel-permutation / batch-order laws are left to the small cases",
     "root-cause routing: a batch in which the reference finds a trough exactly k samples before the end calls the code "
     "under kind C14.features.trough_at_T-k (known finding recovery_eq_T) and, when it crashes, is re-run without those "
     "waveforms so that all other assertions still apply; on rows that the reference classifies as 'swapped, new peak "
@@ -189,8 +208,88 @@ def _case(draw):
             "bperm": draw(st.sampled_from([True, False, False]))}
 
 
+# ---- real-data scale (round 10): 2^16+1 .. 1.05e6 waveforms, built from a handful of parameter rows ------------------
+# classes of the number of waveforms N; T and C are small so that one call stays around 1 GB (the function holds about
+# ten float64 / int64 arrays of N x T at its peak)
+BIG_CLASSES = {
+    # name: (ranges of N, largest N * T * C, weight)
+    "2^16": ([(65537, 65540), (65537, 70001)], 6_000_000, 4),
+    "1e5_2^17": ([(100001, 100003), (131073, 131075), (100001, 140000)], 6_000_000, 3),
+    "2^18": ([(262145, 262148), (200001, 300000)], 6_000_000, 3),
+    "1e6_2^20": ([(1000001, 1000003), (1048577, 1048580), (1048576 + 999, 1048576 + 1002), (1048577, 1050000)],
+                 10_500_000, 5),  # T = 10, C = 1 only
+}
+BIG_SEAMS = (("2^16", 2 ** 16), ("1e5", 10 ** 5), ("2^17", 2 ** 17), ("2^18", 2 ** 18), ("1e6", 10 ** 6), ("2^20", 2 ** 20))
+
+
+def _big_size(case):
+    """(class, N) of a real-data-scale case. Unless the case names N itself ("big": {"n": ...}), both are a fixed
+    function of the drawn fields (CRC of the parameter rows and of the seed, class among those that T x C can afford)
+    and not draws of their own: Hypothesis fills a good part of its budget with near-copies of earlier examples (same
+    leading draws, one span replaced) - when N was drawn, the 57 big cases of a quick run had 10 different sizes."""
+    big = case["big"]
+    if isinstance(big, dict) and "n" in big:
+        return str(big.get("cls", "given")), int(big["n"])
+    T, C = case["T"], case["C"]
+    h = zlib.crc32(json.dumps([case["wavs"], case["seed"]], sort_keys=True).encode())
+    rng = np.random.default_rng([h, 0x51CE])
+    names = [nm for nm, (ranges, budget, _) in BIG_CLASSES.items() if ranges[-1][1] * T * C <= budget]
+    if not names:  # not generated: T x C too large for 2^16 waveforms within the memory budget
+        return "2^16", 65537 + h % 4
+    wts = np.array([BIG_CLASSES[nm][2] for nm in names], dtype=float)
+    cls = names[int(rng.choice(len(names), p=wts / wts.sum()))]
+    ranges = BIG_CLASSES[cls][0]
+    lo, hi = ranges[int(rng.integers(len(ranges)))]
+    return cls, int(rng.integers(lo, hi + 1))
+
+
+@st.composite
+def _big_case(draw):
+    # T x C decides which classes of N are affordable: 10 x 1 all four, up to 20 x 1 the first three, ...
+    grp = draw(st.sampled_from(["10"] * 3 + ["11-20"] * 4 + ["21-42"] * 3 + ["43-64"]))
+    if grp == "10":
+        T, C = 10, 1
+    else:
+        lo, hi = (int(v) for v in grp.split("-"))
+        T = draw(st.integers(lo, hi))
+        C = min(draw(st.sampled_from([1, 1, 1, 2, 3])), max(1, BIG_CLASSES["2^16"][1] // (70001 * T)))
+    # the parameter rows: one per clause of the property, then free ones
+    forced = [
+        {"shape": "bi", "pol": -1, "tpos": T - 1},                                       # trough on the last sample
+        {"shape": "mono", "pos": T - 1, "tpos": T - 1},                                  # peak on the last sample
+        {"shape": "weak", "pol": 1, "r": draw(st.integers(100, 140))},                    # positive, swapped to the trough
+        {"shape": "weak", "pol": 1, "r": draw(st.integers(165, 220))},                    # positive, not swapped
+        {"shape": "bi", "pol": -1, "pos": 1, "tpos": draw(st.integers(2, 8))},            # peak on sample 1
+        {"shape": "tri", "pos": draw(st.integers(T // 3, T // 2)), "tpos": T - 1 - draw(st.integers(1, 6))},
+    ]
+    wavs = []
+    for over in forced[:draw(st.integers(3, len(forced)))]:
+        w = draw(_wav(T, C))
+        w.update(over)
+        w["nz"] = min(w["nz"], 8)
+        if w["tpos"] < w["pos"]:
+            w["pos"] = draw(st.integers(1, w["tpos"]))
+        wavs.append(w)
+    wavs += [draw(_wav(T, C)) for _ in range(draw(st.integers(0, 6)))]
+    form = draw(st.sampled_from(FORMS_ANY + ("kw", "kw") + FORMS_DEFAULT))
+    if form in FORMS_DEFAULT:
+        k, fs = 5, FS_DEFAULT
+    else:
+        k = draw(st.sampled_from([5, 5, 5, 5, 1, 2, 3, 4, 6, 7, 8, 9]))
+        fs = draw(st.sampled_from([FS_DEFAULT] * 4 + FS_OTHER))
+    k2 = draw(st.sampled_from([k, k, 1, 3, 5, 9]))
+    dtype = draw(st.sampled_from(["f32", "f32", "i32"] if T == 10 else ["f64", "f64", "f64", "f32", "f32", "i32"]))
+    return {"T": T, "C": C, "k": k, "seed": draw(st.integers(0, 2 ** 32 - 1)), "f32": dtype == "f32",
+            "scale_exp": 1, "split": draw(st.integers(1, 4097)),
+            "laws": draw(st.booleans()), "wavs": wavs, "dtype": dtype, "fs": fs, "form": form,
+            "form2": draw(st.sampled_from(FORMS_ANY + (FORMS_DEFAULT if k2 == 5 and fs == FS_DEFAULT else ()))),
+            "k2": k2, "fs2": fs, "layout": draw(st.sampled_from(["C", "C", "T", "F"])),
+            "law_layout": draw(st.sampled_from(["C", "T", "F"])), "again": draw(st.booleans()),
+            "bperm": False, "big": {"v": 1}}
+
+
 def strategy(tier):
-    return _case()
+    return weighted((30, _case()), (1, _big_case()))
 
 
 def enum_shards(tier):
@@ -494,9 +593,12 @@ def _check_peak_channel(ctx, got, real, src):
                      lambda: f"peak-channel traces: {type(real).__name__} of shape {getattr(real, 'shape', None)}, "
                              f"expected ndarray {(n, T)}"):
         return
-    if idx is None or idx.shape != (n,) or idx.dtype.kind not in "iuf" or \
-            not all(float(j).is_integer() and 0 <= j < C for j in idx):
+    if idx is None or idx.shape != (n,) or idx.dtype.kind not in "iuf":
         return  # reported under C14.frame / C14.peak
+    with np.errstate(all="ignore"):
+        fidx = idx.astype(float)
+        if not bool(np.all((fidx == np.floor(fidx)) & (fidx >= 0) & (fidx < C))):
+            return  # reported under C14.peak
     exp = np.where(np.isnan(src), 0, src)[np.arange(n), :, idx.astype(int)]
     ok = real.dtype.kind in "iuf" and np.array_equal(real, exp)
     ctx.check(ok, "C14.peak_channel",
@@ -550,7 +652,196 @@ def _check_fs_columns(ctx, got, fs, n):
                               f"{b}_time_idx) / fs) = {exp[bad[0]]!r} (fs={fs})")
 
 
+def _big_rows(N, m, seed):
+    """Template number (0..m-1) and power-of-two exponent of each of the N rows: random everywhere, and consecutive
+    different templates on the rows s-1, s, s+1 around every multiple s of 1000 and of 1024 (every power of two from
+    2^10 and every power of ten from 10^3 is one of them), rotating from one seam to the next."""
+    rng = np.random.default_rng([seed, 0xB16])
+    ti = rng.integers(0, m, N)
+    ex = rng.integers(-2, 3, N)
+    seams = np.unique(np.concatenate([np.arange(1000, N, 1000), np.arange(1024, N, 1024)]))
+    j = np.arange(seams.size)
+    for d in (-1, 0, 1):
+        pos = seams + d
+        ok = pos < N
+        ti[pos[ok]] = (j[ok] + d + 1) % m
+    return ti, ex, seams
+
+
+def _run_big(case, ctx):
+    """Real-data scale: N > 2^16 waveforms. Row i is template ti[i] (one of the few parameter rows of the case, built
+    and judged by the same reference as the small cases) times 2**ex[i] (exact), so the expected frame is the table
+    of the template features indexed by ti - known by construction for every row, compared exactly."""
+    T, C, k = case["T"], case["C"], case["k"]
+    cls, N = _big_size(case)
+    # the second full pass (batch without its first rows) and the third (same argument again): smaller classes only (cost)
+    shift_pass, again_pass = case.get("laws", True) and N < 100000, case.get("again", True) and N < 200000
+    dt = _dtype(case)
+    fs = case.get("fs", FS_DEFAULT)
+    k2, fs2 = case.get("k2", k), case.get("fs2", fs)
+    form, form2 = _form(case.get("form", "kw"), k, fs), _form(case.get("form2", "kw"), k2, fs2)
+    layout, law_layout = case.get("layout", "C"), case.get("law_layout", "C")
+    tw = build_batch(case)  # (m, T, C) templates in the dtype of the case
+    twz = np.where(np.isnan(tw), 0, tw)
+    refs = [ref_features(twz[j].tolist(), k) for j in range(tw.shape[0])]
+    usable = [j for j, r in enumerate(refs) if not r["skip"]]
+    ctx.label("scale_big", "scale_class_" + cls, dt, "C1" if C == 1 else "C>1", "n>1",
+              "k5" if k == 5 else "k!=5", "fs_default" if fs == FS_DEFAULT else "fs_other", "form_" + form,
+              "layout_" + layout)
+    for r in refs:
+        if r["skip"]:
+            ctx.label("skip_" + r["skip"])
+    if not usable:
+        return
+    mu = len(usable)
+    ti, ex, seams = _big_rows(N, mu, case["seed"])
+    if dt == "i32":
+        ex = np.abs(ex)
+    sc = 2.0 ** ex
+    W = tw[np.asarray(usable)[ti]]
+    W *= sc.astype(W.dtype)[:, None, None]  # exact: powers of two, far from the ends of the exponent range
+    ur = [refs[j] for j in usable]
+
+    def tab(key):
+        return np.array([np.nan if r[key] is None else r[key] for r in ur], dtype=float)[ti]
+
+    E = {key: tab(key) for key in ("c", "p", "tr", "tip", "post", "pre", "rec", "raw_rec")}
+    E["pv"], E["tv"] = tab("pv") * sc, tab("tv") * sc
+    xt = np.array([r["x"] for r in ur], dtype=float)  # (mu, T): the peak trace of every template
+    swapped = np.array([r["swapped"] for r in ur])[ti]
+    sp = swapped & (E["pv"] > 0)
+    for name, s in BIG_SEAMS:
+        if N > s:
+            ctx.label("scale_" + name)
+    for name, cond in (("peak_pos", E["pv"] > 0), ("peak_neg", E["pv"] < 0), ("swap_pos", sp), ("swap_neg", swapped & ~sp),
+                       ("trough_last6", E["tr"] >= T - 6), ("trough==peak", E["tr"] == E["p"]),
+                       ("trough==T-k", E["raw_rec"] == T), ("recovery_clipped", E["raw_rec"] > T - 1),
+                       ("peak_last", E["p"] == T - 1), ("peak_at_1", E["p"] == 1),
+                       ("no_post_crossing", np.isnan(E["post"])), ("no_pre_crossing", np.isnan(E["pre"]))):
+        if bool(np.any(cond)):
+            ctx.label(name)
+    if dt != "i32" and any(case["wavs"][j]["nan"] for j in usable):
+        ctx.label("nan_channel")
+    # seam-relevant: the rows before, on and after the seams hold different waveforms with different expected features
+    feat = np.stack([E["c"], E["p"], E["tr"], E["tip"], E["pv"]], axis=1)
+    s_in = seams  # all < N; the row after the seam may not exist (N = 2^16 + 1: the last row starts a block of its own)
+    before = np.any(feat[s_in - 1] != feat[s_in], axis=1)
+    differ = before & (np.any(feat[np.minimum(s_in + 1, N - 1)] != feat[s_in], axis=1) | (s_in == N - 1))
+    ctx.stat("scale_max_waveforms", N)
+    ctx.stat("scale_seams_with_different_neighbours", int(differ.sum()))
+    at_big = differ[np.isin(s_in, [s for _, s in BIG_SEAMS])]
+    if mu >= 2 and at_big.size and bool(at_big.all()):
+        ctx.nontrivial = True
+
+    eq_T = bool(np.any(E["raw_rec"] == T))
+    arg = _Arg(W, layout)
+    got = _features(ctx, KIND_FEATURES_EQ_T if eq_T else KIND_FEATURES, arg, k, fs, form, src=W)
+    if got is ctx.CRASH:
+        return
+    missing = [c for c in REQUIRED if c not in got]
+    if not ctx.check(not missing and all(got[c].shape == (N,) for c in got), "C14.frame",
+                     lambda: f"missing columns {missing} or wrong number of rows (expected {N}, got "
+                             f"{sorted(set(got[c].shape for c in got))})"):
+        return
+    try:
+        g = {c: np.asarray(got[c], dtype=float) for c in REQUIRED}
+    except (TypeError, ValueError) as e:
+        ctx.fail("C14.frame", f"non-numeric feature column: {type(e).__name__}: {e}")
+        return
+    _check_fs_columns(ctx, got, fs, N)
+
+    def where(i):
+        s = int(seams[np.argmin(np.abs(seams - i))]) if seams.size else 0
+        return f"row {i} of {N} (template {usable[int(ti[i])]} x 2**{int(ex[i])}; nearest multiple of 1000 / 1024: {s})"
+
+    def chk(ok, kind, text, rows=None, route=False):
+        bad = ~ok if rows is None else ~ok & rows
+        if route and bool(np.any(bad & sp)):
+            ctx.fail(KIND_SWAP_POS, text(int(np.flatnonzero(bad & sp)[0])))
+            bad = bad & ~sp
+        n_bad = int(bad.sum())
+        return ctx.check(n_bad == 0, kind, lambda: f"{n_bad} row(s), first: " + text(int(np.flatnonzero(bad)[0])))
+
+    with np.errstate(all="ignore"):
+        chk((g["peak_trace_idx"] == E["c"]) & (g["peak_time_idx"] == E["p"]) & (g["peak_val"] == E["pv"]), "C14.peak",
+            lambda i: f"{where(i)}: peak (trace, time, val) = ({g['peak_trace_idx'][i]}, {g['peak_time_idx'][i]}, "
+                      f"{g['peak_val'][i]}) expected ({E['c'][i]}, {E['p'][i]}, {E['pv'][i]})")
+        loc = (g["peak_trace_idx"] == E["c"]) & (g["peak_time_idx"] == E["p"])
+        chk((g["trough_time_idx"] == E["tr"]) & (g["trough_val"] == E["tv"]), "C14.trough",
+            lambda i: f"{where(i)}: trough (time, val) = ({g['trough_time_idx'][i]}, {g['trough_val'][i]}) expected "
+                      f"({E['tr'][i]}, {E['tv'][i]}) peak at {E['p'][i]}", loc)
+        chk((g["tip_time_idx"] < g["peak_time_idx"]) & (g["peak_time_idx"] <= g["trough_time_idx"]), "C14.order",
+            lambda i: f"{where(i)}: tip {g['tip_time_idx'][i]} < peak {g['peak_time_idx'][i]} <= trough "
+                      f"{g['trough_time_idx'][i]} violated", loc)
+        chk(g["tip_time_idx"] == E["tip"], "C14.tip",
+            lambda i: f"{where(i)}: tip at {g['tip_time_idx'][i]} expected {E['tip'][i]} (peak {E['p'][i]})", loc, route=True)
+        for side in ("post", "pre"):
+            col = f"half_peak_{side}_time_idx"
+            chk(g[col] == E[side], "C14.half_peak",
+                lambda i: f"{where(i)}: half-peak point {side} the peak at {g[col][i]} expected {E[side][i]} "
+                          f"(peak {E['p'][i]} val {E['pv'][i]})", loc & ~np.isnan(E[side]), route=True)
+        chk(g["recovery_time_idx"] == E["rec"], "C14.recovery",
+            lambda i: f"{where(i)}: recovery index {g['recovery_time_idx'][i]} expected {E['rec'][i]} "
+                      f"(trough {E['tr'][i]} + {k}, T={T})", loc)
+        # every value is the input sample at the reported index of the peak trace
+        for name in ("tip", "half_peak_post", "half_peak_pre", "recovery"):
+            rows = loc.copy()
+            if name.startswith("half"):
+                rows &= ~np.isnan(E[name[10:]])
+            idx = g[name + "_time_idx"]
+            inr = (idx == np.floor(idx)) & (idx >= 0) & (idx < T)
+            chk(inr, "C14.index_range", lambda i: f"{where(i)}: {name}_time_idx = {idx[i]} outside 0..{T - 1}", rows)
+            rows &= inr
+            xv = xt[ti, np.where(inr, idx, 0).astype(int)] * sc
+            chk(g[name + "_val"] == xv, "C14.values",
+                lambda i: f"{where(i)}: {name}_val = {g[name + '_val'][i]} but the peak trace holds {xv[i]} at index "
+                          f"{int(idx[i])}", rows, route=True)
+
+    # ---- batch independence on the rows around the seams: single-waveform calls (2-D and 3-D input alternate)
+    near = [int(s) + d for s in (2 ** 16, 10 ** 5, 2 ** 17, 2 ** 18, 10 ** 6, 2 ** 20) for d in (-1, 0, 1) if s + d < N]
+    pick = np.random.default_rng([case["seed"], 0xBA7C]).permutation(len(near))[:4]
+    for i in sorted(near[j] for j in pick):
+        one = W[i] if i % 2 == 0 else W[i:i + 1]
+        g1 = _features(ctx, "C14.batch", _Arg(one, law_layout), k, fs)
+        if g1 is ctx.CRASH:
+            continue
+        bad = _diff_cols({name: got[name][i:i + 1] for name in got}, g1)
+        ctx.check(not bad, "C14.batch", lambda: f"row {i} of the batch of {N} differs from the single-waveform call "
+                                                f"({one.ndim}-D input) in {bad}")
+
+    # ---- the batch without its first s rows (every later row at another position): same rows of the frame
+    if shift_pass:
+        ctx.label("scale_shifted_batch")
+        s = 1 + (case["split"] - 1) % 4097
+        gb = _features(ctx, "C14.batch", _Arg(W[s:], law_layout), k, fs)
+        if gb is not ctx.CRASH:
+            bad = _diff_cols({name: v[s:] for name, v in got.items()}, gb)
+            ctx.check(not bad, "C14.batch", lambda: f"batch of {N} without its first {s} rows: columns {bad} differ from "
+                                                    f"rows [{s}:] of the frame of the whole batch")
+        del gb
+
+    # ---- the same argument object a second time
+    if again_pass:
+        ctx.label("again_" + form2, "again_same_options" if (k2, fs2) == (k, fs) else "again_other_options")
+        g3 = _features(ctx, "C14.again", arg, k2, fs2, form2, src=W)
+        if g3 is not ctx.CRASH:
+            dep = {"recovery_time_idx", "recovery_val", "recovery_slope"} if k2 != k else set()
+            bad = _diff_cols(got, g3, skip=dep)
+            ctx.check(not bad, "C14.again",
+                      lambda: f"second call with the same array object of {N} waveforms ({form2}, k={k2} after {form}, "
+                              f"k={k}; layout {layout}): columns {bad} differ from the first call")
+            if dep and "recovery_time_idx" in g3 and g3["recovery_time_idx"].shape == (N,):
+                with np.errstate(all="ignore"):
+                    r3 = np.asarray(g3["recovery_time_idx"], dtype=float)
+                    exp = np.minimum(E["tr"] + k2, T - 1)
+                    chk(r3 == exp, "C14.recovery",
+                        lambda i: f"{where(i)}, second call with k={k2}: recovery index {r3[i]} expected {exp[i]} "
+                                  f"(trough {E['tr'][i]} + {k2}, T={T})", loc)
+
+
 def run_case(case, ctx):
+    if case.get("big"):
+        return _run_big(case, ctx)
     T, C, k = case["T"], case["C"], case["k"]
     dt = _dtype(case)
     fs = case.get("fs", FS_DEFAULT)
